@@ -33,10 +33,14 @@ type RemoteOp struct {
 	// Ref2 (fetchref): a second reference is fetched, read and closed while the body of the
 	// first is still open and unread
 	Ref2 string `json:"ref2,omitempty"`
+	// Node2 (pushpair): pushed by a second task at the same time as Node
+	Node2 int `json:"node2,omitempty"`
 }
 
 func (o RemoteOp) String() string {
 	switch o.Op {
+	case "pushpair":
+		return fmt.Sprintf("push(n%d)||push(n%d)", o.Node, o.Node2)
 	case "tag", "pushref":
 		return fmt.Sprintf("%s(n%d,%q)", o.Op, o.Node, o.Ref)
 	case "resolve", "fetchref":
@@ -128,9 +132,22 @@ func (p *remoteProp) genReferrersUnderFault(r *Rand) *RemoteParams {
 	rp.PlainHTTP = r.Bool()
 	rp.SkipGC = r.Chance(0.3)
 	second := refs[subj][1]
+	pairWith := -1
+	if len(refs[subj]) >= 3 && r.Bool() {
+		pairWith = refs[subj][2] // the second and third referrer are pushed at the same time
+	}
 	for i := range g.Nodes {
 		if i == second {
 			rp.FaultFrom = len(rp.Ops)
+		}
+		if i == pairWith {
+			continue
+		}
+		if i == second && pairWith >= 0 && pairReady(g, pairWith, second) {
+			rp.Ops = append(rp.Ops, RemoteOp{Op: "pushpair", Node: second, Node2: pairWith})
+			continue
+		} else if i == second {
+			pairWith = -1
 		}
 		rp.Ops = append(rp.Ops, RemoteOp{Op: "push", Node: i})
 		if i >= second && r.Chance(0.3) {
@@ -143,6 +160,16 @@ func (p *remoteProp) genReferrersUnderFault(r *Rand) *RemoteParams {
 	rp.Ops = append(rp.Ops, RemoteOp{Op: "preds", Node: subj})
 	rp.FaultPick = []uint64{r.U64(), r.U64()}
 	return rp
+}
+
+// pairReady: everything node b links to has an index below a (it is pushed before the pair).
+func pairReady(g *Graph, b, a int) bool {
+	for _, c := range g.Nodes[b].Succ {
+		if c >= a {
+			return false
+		}
+	}
+	return true
 }
 
 func (p *remoteProp) Gen(r *Rand, tier string, idx int) any {
@@ -540,9 +567,25 @@ func (p *remoteProp) step(ctx context.Context, rc *RunCtx, rp *RemoteParams, g *
 	var gotBool bool
 	var gotList []ocispec.Descriptor
 	var seekViolation *Verdict
+	var err2 error
 	switch op.Op {
 	case "push":
 		err = repo.Push(ctx, n.Desc, bytes.NewReader(n.Data))
+	case "pushpair":
+		n2 := g.Nodes[op.Node2]
+		done := make(chan struct{}, 2)
+		simrt.Go(func() {
+			defer func() { done <- struct{}{} }()
+			err = repo.Push(ctx, n.Desc, bytes.NewReader(n.Data))
+		})
+		simrt.Go(func() {
+			defer func() { done <- struct{}{} }()
+			err2 = repo.Push(ctx, n2.Desc, bytes.NewReader(n2.Data))
+		})
+		for k := 0; k < 2; k++ {
+			<-done
+			simrt.Yield("join")
+		}
 	case "fetch":
 		gotBytes, err = content.FetchAll(ctx, repo, n.Desc)
 	case "readseek":
@@ -613,6 +656,30 @@ func (p *remoteProp) step(ctx context.Context, rc *RunCtx, rp *RemoteParams, g *
 	rc.Logf("step %d %s -> err=%v (%d requests, fault fired=%v)", i, op, err, len(reqs), fired)
 	if n != nil && (fired || err != nil) && (op.Op == "push" || op.Op == "pushref" || op.Op == "delete") {
 		p.uncertain[descKey(n.Desc)] = true
+	}
+	if op.Op == "pushpair" {
+		// two pushes side by side. A plainly failed exchange may fail either or both of them; one
+		// that reports success has stored its manifest and, on a registry without the Referrers
+		// API, recorded it as referrer - the later Predecessors steps hold it to that.
+		plain := !fired || (rp.Fault != nil && (rp.Fault.Kind == "status-500" || rp.Fault.Kind == "transport"))
+		for k, e := range []error{err, err2} {
+			nk := n
+			if k == 1 {
+				nk = g.Nodes[op.Node2]
+			}
+			if e != nil || !plain {
+				p.uncertain[descKey(nk.Desc)] = true
+				if e != nil && !fired {
+					return violation("unexpected-error", remoteErrSig(e), "step %d %s: push of n%d failed: %v\n%s", i, op, nk.ID, e, hist())
+				}
+				continue
+			}
+			if !regHas(reg, simRepo, nk) {
+				return violation("push-not-applied", "", "step %d %s: push of n%d returned nil but the registry does not hold it\n%s", i, op, nk.ID, hist())
+			}
+			*okOps++
+		}
+		return nil
 	}
 
 	if seekViolation != nil {
